@@ -18,13 +18,18 @@ from .. import common, tlc
 GRAMMAR = r"""
 Model:   imports*=Import elems*=Elem;
 Import:  'import' importURI=STRING;
-Elem:    Pkg | Def | Use | UseList;
+Elem:    Pkg | Def | Use | UseList | Node | Target;
 Pkg:     'pkg' name=ID '{' elems*=Elem '}';
 Def:     DefA | DefB;
 DefA:    'defa' name=ID ('extends' extends+=[Def:QName][','])?;
 DefB:    'defb' name=ID;
 Use:     'use' ref=[Def:QName];
 UseList: 'refs' refs+=[Def:QName][','];
+// one object with several reference attributes
+Node:    'node' ins+=[Def:QName][','] ('out' outs+=[Def:QName][','])? ('one' ref=[Def:QName])?;
+// an object and its first child start at the same input position, both have a list `refs`
+Target:  main=Part ('with' refs+=[Def:QName][','])? ';';
+Part:    'part' refs+=[Def:QName][','];
 QName:   ID('.'ID)*;
 Comment: /#.*$/;
 """
@@ -39,9 +44,12 @@ class Watchdog(Exception):
 
 def norm_sc(sc):
     """Scenario as printed by TLC -> canonical JSON-able form (sets as sorted lists)."""
-    return {"files": [[{"list": bool(st["list"]), "refs": list(st["refs"])} for st in f] for f in sc["files"]],
+    n = len(sc["sched"])
+    return {"files": [[{"list": bool(st["list"]), "refs": list(st["refs"]), "join": st.get("join", "none")}
+                       for st in f] for f in sc["files"]],
             "sched": list(sc["sched"]), "deps": [sorted(d) for d in sc["deps"]],
-            "never": sorted(sc["never"]), "unknown": sorted(sc["unknown"])}
+            "never": sorted(sc["never"]), "unknown": sorted(sc["unknown"]),
+            "tgt": list(sc.get("tgt") or range(1, n + 1))}
 
 
 def ref_count(sc):
@@ -53,18 +61,35 @@ def file_refs(sc, m):
 
 
 def names_for(sc, seed):
-    """Target names: unique, and deliberately not in alphabetical order of the references."""
+    """Target names: unique per target, and deliberately not in alphabetical order of the references."""
     n = ref_count(sc)
     rng = random.Random(f"{seed}:{common.canon(sc)}")
     pool = [a + b for a in "qrst" for b in LETTERS][: max(n, 1) * 3]
     rng.shuffle(pool)
-    return {r: pool[r - 1] for r in range(1, n + 1)}
+    return {t: pool[t - 1] for t in range(1, n + 1)}
+
+
+def _groups(stmts):
+    """Statements of a file grouped into objects: [(kind, [statement index])] (pure syntax of `join`)."""
+    out = []
+    for k, st in enumerate(stmts):
+        j = st.get("join", "none")
+        if j == "none":
+            out.append(["plain", [k]])
+        elif j == "attr":
+            out[-1][0] = "node"
+            out[-1][1].append(k)
+        else:
+            out[-1][0] = "target"
+            out[-1][1].append(k)
+    return out
 
 
 def render(sc, names, imports="star"):
-    """-> [(filename, text)], {ref: (file index, offset)}.  File 1 is the main model."""
+    """-> [(filename, text)], {ref: (file index, offset)}, {ref: attribute name}.  File 1 is the main model."""
     nf = len(sc["files"])
-    out, pos = [], {}
+    tgt = sc["tgt"]
+    out, pos, attr = [], {}, {}
     for m in range(nf):
         parts = []
         if imports == "star":
@@ -76,34 +101,52 @@ def render(sc, names, imports="star"):
         # a file without any element would make textX return a bare string instead of a model object
         parts.append(f"# targets\ndefb zz{m + 1}\n")
         for r in file_refs(sc, m):
-            parts.append(f"defb {names[r]}\n")
+            if tgt[r - 1] == r:           # a target is defined in the file of the first reference to it
+                parts.append(f"defb {names[r]}\n")
         text = "".join(parts)
-        for st in sc["files"][m]:
-            if st["list"]:
-                text += "refs "
-                for i, r in enumerate(st["refs"]):
-                    if i:
-                        text += ", "
-                    pos[r] = (m, len(text))
-                    text += names[r]
-                text += "\n"
-            else:
-                r = st["refs"][0]
-                text += "use "
+
+        def put(st, an):
+            nonlocal text
+            for i, r in enumerate(st["refs"]):
+                if i:
+                    text += ", "
                 pos[r] = (m, len(text))
-                text += names[r] + "\n"
+                attr[r] = an
+                text += names[tgt[r - 1]]
+
+        stmts = sc["files"][m]
+        for kind, ks in _groups(stmts):
+            sts = [stmts[k] for k in ks]
+            if kind == "plain":
+                text += "refs " if sts[0]["list"] else "use "
+                put(sts[0], "refs" if sts[0]["list"] else "ref")
+            elif kind == "node":
+                text += "node "
+                put(sts[0], "ins")
+                for st in sts[1:]:
+                    text += " out " if st["list"] else " one "
+                    put(st, "outs" if st["list"] else "ref")
+            else:
+                text += "part "
+                put(sts[0], "refs")
+                text += " with "
+                put(sts[1], "refs")
+                text += " ;"
+            text += "\n"
         out.append((f"f{m + 1}.m", text))
-    return out, pos
+    return out, pos, attr
 
 
 class Scheduled:
     """The environment of LoaderResolve.tla as a textX scope provider (inner provider of ImportURI)."""
 
-    def begin(self, sc, names, pos):
+    def begin(self, sc, names, pos, attr):
         self.sc = sc
         self.by_name = {v: k for k, v in names.items()}
-        self.pos = pos
-        self.att = {r: 0 for r in names}
+        self.by_pos = {v: k for k, v in pos.items()}
+        self.names = names
+        self.attr = attr
+        self.att = {r: 0 for r in pos}
         self.resolved = set()
         self.calls = []
         self.anomalies = []
@@ -125,18 +168,18 @@ class Scheduled:
         if type(obj).__name__ == "Model":
             # ImportURI asks again on behalf of imported models after a None answer: same answer, not a new attempt
             return None
-        r = self.by_name.get(obj_ref.obj_name)
-        if r is None:
-            self.anomalies.append(f"provider asked for unknown name {obj_ref.obj_name!r}")
-            return None
         fn = os.path.basename(get_model(obj)._tx_filename or "")
         m = int(fn[1:-2]) if re.fullmatch(r"f\d+\.m", fn) else 0
-        if self.pos[r] != (m - 1, obj_ref.position):
-            self.anomalies.append(f"reference {r} offered from file {m} offset {obj_ref.position}, "
-                                  f"rendered at {self.pos[r]}")
-        want = "refs" if any(r in st["refs"] and st["list"] for f in self.sc["files"] for st in f) else "ref"
-        if attr.name != want:
-            self.anomalies.append(f"reference {r} offered for attribute {attr.name}")
+        # references are told apart by where they stand in the text (several may name the same target)
+        r = self.by_pos.get((m - 1, obj_ref.position))
+        if r is None:
+            self.anomalies.append(f"provider asked for {obj_ref.obj_name!r} at offset {obj_ref.position} of file "
+                                  f"{m}, where no reference was rendered")
+            return None
+        if obj_ref.obj_name != self.names[self.sc["tgt"][r - 1]]:
+            self.anomalies.append(f"reference {r} offered with name {obj_ref.obj_name!r}")
+        if attr.name != self.attr[r]:
+            self.anomalies.append(f"reference {r} offered for attribute {attr.name}, rendered in {self.attr[r]}")
         self.att[r] += 1
         k = self.att[r]
         if k > WATCHDOG:
@@ -182,12 +225,13 @@ def run_scenario(sc, seed, workdir, imports="star"):
     from textx.exceptions import TextXSemanticError
     from textx.scoping import get_included_models
     mm, sched = _mm()
+    sc = norm_sc(sc)
     names = names_for(sc, seed)
-    files, pos = render(sc, names, imports)
+    files, pos, attr = render(sc, names, imports)
     for fn, text in files:
         with open(os.path.join(workdir, fn), "w") as f:
             f.write(text)
-    sched.begin(sc, names, pos)
+    sched.begin(sc, names, pos, attr)
     by_name = sched.by_name
     obs = {"kind": "?", "names": [], "attrs": [], "text": ""}
     try:
@@ -215,13 +259,25 @@ def run_scenario(sc, seed, workdir, imports="star"):
             mdl = loaded.get(f"f{m + 1}.m")
             row = []
             if mdl is not None:
+                def tg(objs):
+                    return [by_name.get(getattr(t, "name", None), 0) for t in objs]
+
                 for el in mdl.elems:
                     cn = type(el).__name__
                     if cn == "UseList":
-                        row.append([by_name.get(getattr(t, "name", None), 0) for t in el.refs])
+                        row.append(tg(el.refs))
                     elif cn == "Use":
-                        t = el.ref
-                        row.append([by_name.get(getattr(t, "name", None), 0)] if t is not None else [])
+                        row.append(tg([el.ref]) if el.ref is not None else [])
+                    elif cn == "Node":
+                        row.append(tg(el.ins))
+                        if el.outs:
+                            row.append(tg(el.outs))
+                        if el.ref is not None:
+                            row.append(tg([el.ref]))
+                    elif cn == "Target":
+                        row.append(tg(el.main.refs))
+                        if el.refs:
+                            row.append(tg(el.refs))
             attrs.append(row)
         obs["attrs"] = attrs
     obs["calls"] = sched.calls
@@ -363,14 +419,34 @@ def random_scenario(rng, max_files=3, max_refs=8, max_sched=3, p_dep=0.25, p_nev
     for i in range(nf):
         cnt = bounds[i + 1] - bounds[i]
         stmts = []
+
+        def lst(k, join="none"):
+            nonlocal r, cnt
+            stmts.append({"list": True, "refs": list(range(r, r + k)), "join": join})
+            r, cnt = r + k, cnt - k
+
+        def single(join="none"):
+            nonlocal r, cnt
+            stmts.append({"list": False, "refs": [r], "join": join})
+            r, cnt = r + 1, cnt - 1
+
         while cnt > 0:
-            if rng.random() < 0.4:
-                stmts.append({"list": False, "refs": [r]})
-                r, cnt = r + 1, cnt - 1
-            else:
-                k = rng.randint(1, cnt)
-                stmts.append({"list": True, "refs": list(range(r, r + k))})
-                r, cnt = r + k, cnt - k
+            x = rng.random()
+            if x < 0.3:
+                single()
+            elif x < 0.6 or cnt < 2:
+                lst(rng.randint(1, cnt))
+            elif x < 0.8:                      # one object, several reference attributes
+                lst(rng.randint(1, cnt - 1))
+                if rng.random() < 0.75:
+                    lst(rng.randint(1, cnt), "attr")
+                if cnt > 0 and rng.random() < 0.5:
+                    single("attr")
+                if stmts[-1]["join"] == "none":
+                    single("attr") if cnt > 0 else None
+            else:                              # first child and parent with same-named lists
+                lst(rng.randint(1, cnt - 1))
+                lst(rng.randint(1, cnt), "parent")
         files.append(stmts)
     mode = rng.choice(["sched", "deps", "both"])
     sched = [rng.randint(0, max_sched) if mode != "deps" and rng.random() < 0.5 else 0 for _ in range(n)]
@@ -378,7 +454,10 @@ def random_scenario(rng, max_files=3, max_refs=8, max_sched=3, p_dep=0.25, p_nev
             for i in range(1, n + 1)]
     never = sorted(i for i in range(1, n + 1) if mode != "sched" and rng.random() < p_never)
     unknown = sorted(i for i in range(1, n + 1) if rng.random() < p_unknown)
-    return {"files": files, "sched": sched, "deps": deps, "never": never, "unknown": unknown}
+    tgt = []
+    for i in range(1, n + 1):              # some references name a target that was referenced before
+        tgt.append(rng.choice(tgt) if tgt and rng.random() < 0.25 else i)
+    return {"files": files, "sched": sched, "deps": deps, "never": never, "unknown": unknown, "tgt": tgt}
 
 
 # ------------------------------------------------------------------ the conformance pass shared by C08 and C09
@@ -462,7 +541,7 @@ def replay_case(path):
         rec = json.load(f)
     c = rec["case"]
     case = c.get("case", c)
-    sc, imports, mode = case["sc"], case.get("imports", "star"), case.get("attr_mode", "seq")
+    sc, imports, mode = norm_sc(case["sc"]), case.get("imports", "star"), case.get("attr_mode", "seq")
     work = tlc.scratch("vt-res-")
     try:
         obs = run_scenario(sc, int(os.environ.get("VERIF_SEED", "0") or 0), work, imports)
